@@ -97,6 +97,16 @@ func c09Case(w *rt.W, text string, r date.Rule, allPaths bool) int {
 	if allPaths {
 		g, err := date.DefaultParser([]byte(text), r)
 		judge("DefaultParser[[]byte]", g, err, dateTyped(err))
+		{
+			type nS string
+			type nB []byte
+			g, err := date.DefaultParser(nS(text), r)
+			var pe *date.ParseError[nS]
+			judge("DefaultParser[named string]", g, err, errors.As(err, &pe) || dateTyped(err))
+			g, err = date.DefaultParser(nB(text), r)
+			var pb *date.ParseError[nB]
+			judge("DefaultParser[named []byte]", g, err, errors.As(err, &pb) || dateTyped(err))
+		}
 		if r == 0 {
 			var u date.Date
 			err := u.UnmarshalText([]byte(text))
@@ -188,6 +198,68 @@ func runC09(c *rt.Ctx) {
 		})
 	}
 	date.MaxInputLength = 10
+
+	// process-local time zone: years with midnight DST transitions / skipped days, every MM/DD, both real layouts
+	for _, loc := range hostileZones() {
+		loc := loc
+		withLocal(loc, func() {
+			c.Parallel("zones/"+loc.String(), 0, func(w *rt.W) {
+				zy := []int64{2011, 1993, 2017, 2018, 2019, 2014, 2010, 1999, 2000, 2024}
+				for yi := w.Shard; yi < len(zy); yi += w.NShards {
+					for mm := 0; mm <= 13; mm++ {
+						for dd := 0; dd <= 32; dd++ {
+							c09Case(w, fmt.Sprintf("%04d-%02d-%02d", zy[yi], mm, dd), 0, true)
+							c09Case(w, fmt.Sprintf("%04d%02d%02d", zy[yi], mm, dd), date.RuleDisableBasic, true)
+							c09Case(w, fmt.Sprintf("%04d%02d%02d", zy[yi], mm, dd), 0, false)
+						}
+					}
+				}
+				w.ClassN("local-zone-sweep", 1)
+			})
+		})
+	}
+	c.Require("local-zone-sweep", int64(len(hostileZones())))
+
+	// call histories: years that agree in their low bits / low digits but differ in leap status, parsed
+	// back to back (anything remembered between calls under a truncated key shows up here)
+	date.MaxInputLength = 0
+	c.Parallel("year-aliasing-histories", 0, func(w *rt.W) {
+		bases := []int64{1900, 2000, 2100, 1996, 2001, 4, 100, 400, 0}
+		k := 0
+		for _, b := range bases {
+			for sh := 4; sh < 30; sh++ {
+				for _, sign := range []int64{1, -1} {
+					k++
+					if k%w.NShards != w.Shard {
+						continue
+					}
+					y2 := b + sign*(int64(1)<<uint(sh))
+					if y2 < 0 || y2 > 999999999 {
+						continue
+					}
+					for _, md := range [][2]int{{2, 28}, {2, 29}, {2, 30}, {12, 31}} {
+						for rep := 0; rep < 2; rep++ {
+							c09Case(w, fmt.Sprintf("%04d-%02d-%02d", b, md[0], md[1]), 0, true)
+							c09Case(w, fmt.Sprintf("%04d-%02d-%02d", y2, md[0], md[1]), 0, true)
+							c09Case(w, fmt.Sprintf("%04d%02d%02d", b, md[0], md[1]), 0, true)
+						}
+					}
+					w.ClassN("year-aliasing-history", 1)
+				}
+			}
+		}
+		// decimal look-alikes: same last four digits
+		for _, y := range []int64{1900, 2100, 2000, 1996} {
+			for _, pre := range []int64{1, 2, 10, 99, 12345} {
+				y2 := pre*10000 + y
+				c09Case(w, fmt.Sprintf("%04d-02-29", y), 0, true)
+				c09Case(w, fmt.Sprintf("%d-02-29", y2), 0, true)
+				c09Case(w, fmt.Sprintf("%04d-02-29", y), 0, true)
+			}
+		}
+	})
+	date.MaxInputLength = 10
+	c.Require("year-aliasing-history", 100)
 
 	// (b) exhaustive small-alphabet strings under the default configuration
 	const alphabet = "01239-"
